@@ -39,6 +39,11 @@ package resolver
 //@ func (*Resolver).resolveWithCachedNameservers
 //@   abstract
 //@   nosafety all pre
+//@   # C07: on entering a cached delegation the walk's level becomes the label count of THAT zone (a referral can jump
+//@   # several labels), because the glue bailiwick test of the next referral is anchored on it: glue is accepted only
+//@   # for nameserver names inside the zone whose servers are being asked
+//@   assert at store resolver.resolveState.level#1: value == lastret("github.com/miekg/dns.CountLabel")
+//@   assert at call github.com/miekg/dns.CountLabel#1: arg0 == cached.Servers.Zone
 //@   note C08: a cached descent keeps the shorter of the cached entry's deadline and the cut carried so far
 //@   assert at call middleware/resolver.minCut#1: arg0 == rs.cutDeadline && arg1 == rs.cutKey && arg2 == cached.ExpiresAt && arg3 == key
 //@   assert at store resolver.resolveState.cutDeadline#1: value == lastret("middleware/resolver.minCut")
